@@ -4,9 +4,9 @@ from __future__ import annotations
 
 import ast
 
-from ..astutil import call_name, calls_in, dotted, guard_atoms, lexical_guards, name_stores, unparse, walk_local
+from ..astutil import attr_stores, call_name, calls_in, dotted, guard_atoms, lexical_guards, name_stores, unparse, walk_local
 from ..index import FuncInfo
-from ..report import Registry, sub
+from ..report import Registry, chain, sub
 
 R = Registry(
     "C09",
@@ -18,7 +18,12 @@ R = Registry(
         "process_bind_param); without a user hook the impl processor is returned unchanged; every TypeEngine subclass "
         "that defines a bind_processor resolves to a non-default result_processor (listed write-only types excepted); "
         "engine/processors.py re-exports exactly the public names of _processors_cy.py, every `processors.<name>` used "
-        "in the package exists, and every shared processor passes None through unchanged."
+        "in the package exists, and every shared processor passes None through unchanged; every processor taken from a "
+        "component type (TypeDecorator impl, ARRAY item type, out-parameter type, the cached impl) is taken from its "
+        "dialect-level form (.dialect_impl(dialect) / the _dialect_info memo), and TypeDecorator._gen_dialect_impl installs "
+        "load_dialect_impl(dialect).dialect_impl(dialect) -- the recursive adaptation, not a colspecs lookup -- on the "
+        "dialect-level copy; in every generated bind/result/literal processor of a TypeEngine subclass no falsy value "
+        "(b'', '', 0, False, timedelta(0)) is mapped to None by a truthiness / emptiness test."
     ),
     not_decided=(
         "value equality per type and backend; that processors are applied exactly once across labels, subqueries, "
@@ -261,6 +266,262 @@ def r2(ctx):
                   f"`if {p[0]} is None: return None` first", f.loc)
 
 
+# ---------------------------------------------------------------------- R3: component processors come from dialect-level types
+# (construct key) -> reason.  Confirmed by reading.
+R3_EXCEPTIONS = {
+    "sql/sqltypes.py::JSON.bind_processor:_str_impl.bind_processor":
+        "`_str_impl` is a private generic String() helper: the serialised JSON text is handed to the driver as str; the "
+        "generic String defines no bind/result conversion (both return None), so there is nothing a dialect copy would add "
+        "that JSON relies on",
+    "sql/sqltypes.py::JSON.result_processor:_str_impl.result_processor": "same helper as JSON.bind_processor",
+    "dialects/oracle/cx_oracle.py::_OracleJson.result_processor:_str_impl.result_processor": "same helper as JSON.bind_processor",
+}
+ADAPT = "dialect_impl"
+
+
+def _bindings(fn_node, name):
+    return [v for n, v, st in name_stores(fn_node, into_nested=True) if n == name]
+
+
+def _adapted(e, fn_node, depth=0):
+    """How a type expression was obtained: 'dialect-level' (`T.dialect_impl(d)`, `T._dialect_info(d)["impl"]`),
+    'decorator-impl' (`self.impl_instance` / `self.impl`), else 'raw:<text>'."""
+    if isinstance(e, ast.Call) and isinstance(e.func, ast.Attribute) and e.func.attr == ADAPT:
+        return "dialect-level"
+    if isinstance(e, ast.Subscript) and isinstance(e.slice, ast.Constant) and e.slice.value == "impl":
+        base = e.value
+        if isinstance(base, ast.Name) and depth < 4:
+            vs = _bindings(fn_node, base.id)
+            if vs and all(isinstance(v, ast.Call) and isinstance(v.func, ast.Attribute) and v.func.attr == "_dialect_info" for v in vs):
+                return "dialect-level"
+        if isinstance(base, ast.Call) and isinstance(base.func, ast.Attribute) and base.func.attr == "_dialect_info":
+            return "dialect-level"
+    d = dotted(e) or ""
+    if d in ("self.impl_instance", "self.impl"):
+        return "decorator-impl"
+    if isinstance(e, ast.Name) and depth < 4:
+        vs = _bindings(fn_node, e.id)
+        kinds = {_adapted(v, fn_node, depth + 1) if v is not None else "raw:?" for v in vs}
+        if len(kinds) == 1:
+            return next(iter(kinds))
+        if kinds:
+            return "raw:" + "/".join(sorted(kinds))
+    return "raw:" + unparse(e)[:60]
+
+
+@R.rule("C09-R3", floor=24, template="T-FLOW/T-SIBLING",
+        desc="a processor taken from a component type (impl of a TypeDecorator, item type, out-parameter type, the cached "
+             "impl) is taken from the component's dialect-level form: `T.dialect_impl(dialect)` / the _dialect_info memo; "
+             "`self.impl_instance` qualifies because TypeDecorator._gen_dialect_impl installs "
+             "`load_dialect_impl(dialect).dialect_impl(dialect)` on the dialect-level copy")
+def r3(ctx):
+    ix = ctx.index
+    td = ix.cls(TD)
+    te = ix.cls(f"{TA}::TypeEngine")
+    sites = []
+    for m in ix.all_modules():
+        if m.relpath.startswith("testing/") or "_processor(" not in m.source:
+            continue
+        for f in ix.all_functions(m):
+            if f.parent_func is not None:
+                continue
+            for c in calls_in(f.node, into_nested=True):
+                if not (isinstance(c.func, ast.Attribute) and c.func.attr in KINDS):
+                    continue
+                recv = c.func.value
+                d = dotted(recv) or ""
+                if d == "self" or d.startswith("super()") or (c.args and dotted(c.args[0]) == "self"):
+                    continue  # the type's own / inherited processor, not a component's
+                sites.append((f, c, recv))
+    ctx.require(sites, "no component processor call found")
+    uses_decorator_impl = []
+    counts = {}
+    for f, c, recv in sites:
+        base = f"{f.key}:{(dotted(recv) or unparse(recv))[:40].rsplit('.', 1)[-1]}.{c.func.attr}"
+        counts[base] = counts.get(base, 0) + 1
+    seen = {}
+    for f, c, recv in sites:
+        ctx.functions_analysed.add(f.key)
+        base = f"{f.key}:{(dotted(recv) or unparse(recv))[:40].rsplit('.', 1)[-1]}.{c.func.attr}"
+        seen[base] = seen.get(base, 0) + 1
+        key = base if counts[base] == 1 else f"{base}#{seen[base]}"
+        loc = f"{f.module.path}:{c.lineno}"
+        how = _adapted(recv, f.node)
+        if key.split("#")[0] in R3_EXCEPTIONS:
+            ctx.check(how.startswith("raw:"), key, "listed as exempt but is now dialect-level: remove it from R3_EXCEPTIONS",
+                      "exempt: " + R3_EXCEPTIONS[key.split("#")[0]], loc, nontrivial=False)
+            continue
+        if how == "decorator-impl":
+            ok = f.cls is not None and (f.cls is td or td in ix.mro(f.cls))
+            ctx.check(ok, key, f"`{unparse(recv)}` is used as a component type outside a TypeDecorator", 
+                      "self.impl_instance of a TypeDecorator (dialect-level on the dialect copy, see _gen_dialect_impl instance)", loc)
+            uses_decorator_impl.append(key)
+            continue
+        ctx.check(how == "dialect-level", key,
+                  f"`{unparse(c)[:80]}`: the processor of a component type is taken from `{unparse(recv)[:60]}` which was not adapted "
+                  f"with .{ADAPT}(dialect) ({how}): the dialect's own implementation of that type (its bind/result conversion, "
+                  f"variants, a nested TypeDecorator's hooks) is skipped and values do not round-trip",
+                  f"`{unparse(recv)[:60]}` is {how}", loc)
+    for k in R3_EXCEPTIONS:
+        ctx.require(any(k == kk.split("#")[0] for kk in list(counts)), f"R3 exception entry {k} no longer matches a site")
+
+    # premise 1: every _gen_dialect_impl of the TypeDecorator family installs a dialect-level impl on the copy it returns
+    gens = [c.methods["_gen_dialect_impl"] for c in [td] + ix.subclasses(td) if "_gen_dialect_impl" in c.methods]
+    ctx.require(gens, "TypeDecorator._gen_dialect_impl not found")
+    for g in gens:
+        ctx.functions_analysed.add(g.key)
+        stores = [(t, st) for t, node, st in attr_stores(g.node) if t.endswith(".impl_instance") or t.endswith(".impl")]
+        key = f"{g.key}:installs-dialect-level-impl"
+        if not stores:
+            ctx.check(g is not gens[0], key, "the dialect-level copy never receives an adapted impl", "no copy made here", g.loc)
+            continue
+        bad = []
+        for t, st in stores:
+            v = st.value if isinstance(st, ast.Assign) else None
+            how = _adapted(v, g.node) if v is not None else "raw:?"
+            src_ok = False
+            if how == "dialect-level":
+                # ... of the per-dialect impl chosen by load_dialect_impl (or the plain impl)
+                e = v
+                while isinstance(e, ast.Name):
+                    vs = _bindings(g.node, e.id)
+                    e = vs[0] if len(vs) == 1 else None
+                inner = e.func.value if isinstance(e, ast.Call) and isinstance(e.func, ast.Attribute) else None
+                while isinstance(inner, ast.Name):
+                    vs = _bindings(g.node, inner.id)
+                    inner = vs[0] if len(vs) == 1 else None
+                src_ok = (isinstance(inner, ast.Call) and dotted(inner.func) == "self.load_dialect_impl") or \
+                         dotted(inner) in ("self.impl_instance", "self.impl")
+            if not (how == "dialect-level" and src_ok):
+                bad.append(f"{t} = {unparse(v)[:70] if v is not None else '?'} ({how})")
+        ctx.check(not bad, key,
+                  f"the dialect-level copy of a TypeDecorator gets an impl that did not go through "
+                  f"`self.load_dialect_impl(dialect).{ADAPT}(dialect)`: {sorted(set(bad))} -- a shallow colspecs lookup "
+                  f"(dialect.type_descriptor / adapt_type) does not recurse into a nested TypeDecorator or a variant, so "
+                  f"`self.impl_instance.<kind>_processor(dialect)` ({len(uses_decorator_impl)} sites) calls the GENERIC "
+                  f"type's processor and the inner level's dialect conversion is skipped",
+                  f"{len(stores)} store(s) of load_dialect_impl(dialect).{ADAPT}(dialect)", g.loc)
+    # premise 2: the memo that dialect_impl() / the cached processors read is filled from _gen_dialect_impl
+    di = ctx.func(f"{TA}::TypeEngine._dialect_info")
+    ctx.functions_analysed.add(di.key)
+    impl_vals = []
+    for n in ast.walk(di.node):
+        if isinstance(n, ast.Dict):
+            for k, v in zip(n.keys, n.values):
+                if isinstance(k, ast.Constant) and k.value == "impl":
+                    impl_vals.append(v)
+    okm = False
+    if len(impl_vals) == 1 and isinstance(impl_vals[0], ast.Name):
+        vs = _bindings(di.node, impl_vals[0].id)
+        fns = [dotted(v.func) if isinstance(v, ast.Call) else None for v in vs]
+        okm = "self._gen_dialect_impl" in fns and set(fns) <= {"self._gen_dialect_impl", "self.adapt"}
+    ctx.check(okm, f"{di.key}:impl-from-gen-dialect-impl",
+              "the per-dialect memo's 'impl' is not produced by self._gen_dialect_impl(dialect) (variants / TypeDecorator "
+              "adaptation would be bypassed for every cached processor)",
+              "memo['impl'] = self._gen_dialect_impl(dialect) (or an adapt() copy of self)", di.loc)
+
+
+# ---------------------------------------------------------------------- R4: only None is special in a generated processor
+def _value_test(t, p):
+    """Is test expression `t` a test of the bare truthiness / emptiness of parameter `p`?
+    -> True (true when the value is truthy), False (true when falsy), None (not such a test)."""
+    if isinstance(t, ast.Name) and t.id == p:
+        return True
+    if isinstance(t, ast.Call) and isinstance(t.func, ast.Name) and t.func.id in ("bool", "len") and len(t.args) == 1:
+        return _value_test(t.args[0], p)
+    if isinstance(t, ast.UnaryOp) and isinstance(t.op, ast.Not):
+        r = _value_test(t.operand, p)
+        return None if r is None else not r
+    if isinstance(t, ast.Compare) and len(t.ops) == 1 and isinstance(t.left, ast.Call) and isinstance(t.left.func, ast.Name) \
+            and t.left.func.id == "len" and len(t.left.args) == 1 and isinstance(t.left.args[0], ast.Name) and t.left.args[0].id == p \
+            and isinstance(t.comparators[0], ast.Constant) and t.comparators[0].value in (0, 1):
+        k, op = t.comparators[0].value, t.ops[0]
+        if (k == 0 and isinstance(op, (ast.Gt, ast.NotEq))) or (k == 1 and isinstance(op, ast.GtE)):
+            return True
+        if (k == 0 and isinstance(op, (ast.Eq, ast.LtE))) or (k == 1 and isinstance(op, ast.Lt)):
+            return False
+    return None
+
+
+def _is_param(e, p):
+    return isinstance(e, ast.Name) and e.id == p
+
+
+def _is_none(e):
+    return e is None or (isinstance(e, ast.Constant) and e.value is None)
+
+
+def _falsy_to_none(fn, p, pm):
+    """Tests in processor `fn` on the bare truthiness / emptiness of its value parameter `p` whose FALSY side
+    produces None: [description].  (`p and f(p)`, `True if p else False`, `if p: p = f(p)` ... `return p` keep a
+    falsy value or convert it to something that is not NULL and are not reported.)"""
+    out = []
+    for x in ast.walk(fn):
+        if isinstance(x, ast.IfExp):
+            pol = _value_test(x.test, p)
+            if pol is None:
+                continue
+            falsy = x.orelse if pol else x.body
+            if _is_none(falsy):
+                out.append(f"`{unparse(x)[:70]}` is None for every falsy value")
+        elif isinstance(x, ast.If):
+            pol = _value_test(x.test, p)
+            if pol is None:
+                continue
+            block = x.orelse if pol else x.body
+            at_end = False
+            if not block:
+                # falls through to what follows the `if`
+                parent = pm.get(x)
+                following = None
+                for field in ("body", "orelse", "finalbody"):
+                    seq = getattr(parent, field, None)
+                    if isinstance(seq, list) and any(y is x for y in seq):
+                        following = seq[[i for i, y in enumerate(seq) if y is x][0] + 1:]
+                block = (following or [])[:1]
+                at_end = not block and parent is fn
+            none_assigned = bool(block) and isinstance(block[0], (ast.Assign, ast.AnnAssign)) and block[0].value is not None \
+                and _is_none(block[0].value)
+            if at_end or none_assigned or (block and isinstance(block[0], ast.Return) and _is_none(block[0].value)):
+                out.append(f"`if {unparse(x.test)}:` sends every falsy value to "
+                           f"`{unparse(block[0])[:40] if block else 'the implicit return None'}`")
+        elif isinstance(x, ast.BoolOp) and isinstance(x.op, ast.Or):
+            if any(_value_test(v, p) is True for v in x.values[:-1]) and _is_none(x.values[-1]):
+                out.append(f"`{unparse(x)[:70]}` is None for every falsy value")
+    return out
+
+
+@R.rule("C09-R4", floor=90, template="T-GUARD",
+        desc="in every generated bind / result / literal processor of a TypeEngine subclass only None maps to None: no "
+             "branch selected by the bare truthiness or emptiness of the processed value yields None (b'', '', 0, 0.0, "
+             "False, timedelta(0), [] and {} are members of the types' domains, NULL is not their image)")
+def r4(ctx):
+    ix = ctx.index
+    te = ix.cls(f"{TA}::TypeEngine")
+    for c in sorted(ix.all_classes(), key=lambda c: c.key):
+        if c.module.relpath.startswith("testing/") or not (c is te or te in ix.mro(c)):
+            continue
+        for kind in KINDS:
+            f = c.methods.get(kind)
+            if f is None or f.type_only:
+                continue
+            procs = sorted((n for n in ast.walk(f.node) if isinstance(n, (ast.FunctionDef, ast.Lambda)) and n is not f.node and n.args.args),
+                           key=lambda n: (n.lineno, n.col_offset))
+            if not procs:
+                continue
+            ctx.functions_analysed.add(f.key)
+            pm = f.module.parents()
+            for i, fn in enumerate(procs, 1):
+                p = fn.args.args[0].arg
+                key = f"{f.key}:{getattr(fn, 'name', 'lambda')}#{i}"
+                bad = _falsy_to_none(fn, p, pm)
+                ctx.check(not bad, key,
+                          f"{c.qualname}.{kind}: the generated processor turns every FALSY `{p}` into None (SQL NULL): "
+                          f"{'; '.join(bad)} -- empty bytes / '' / 0 / 0.0 / False / timedelta(0) / [] / {{}} are legitimate "
+                          f"values of the type and would be stored or returned as NULL (only `{p} is None` may map to None)",
+                          f"no falsy value of `{p}` is mapped to None", f"{f.module.path}:{fn.lineno}")
+
+
 # ---------------------------------------------------------------------- self-test battery
 R.mutant("bind-impl-inside-user", TA,
          sub("                def process(value: Optional[_T]) -> Any:\n                    return fixed_impl_processor(\n                        fixed_process_param(value, dialect)\n                    )",
@@ -302,3 +563,39 @@ R.mutant("benign-rename-fixed-locals", TA,
 R.mutant("benign-processor-else", PCY,
          sub("def to_str(value: Any) -> Optional[str]:\n    if value is None:\n        return None\n    return str(value)",
              "def to_str(value: Any) -> Optional[str]:\n    if value is None:\n        return None\n    else:\n        return str(value)"), None)
+# --- R3 / R4 (strengthening round, seeds C09/1 and C09/2)
+_GEN = "        typedesc = self.load_dialect_impl(dialect).dialect_impl(dialect)\n"
+# seeded C09/1: shallow colspecs lookup instead of the recursive dialect_impl()
+R.mutant("gen-dialect-impl-shallow-type-descriptor", TA,
+         sub(_GEN, "        typedesc = dialect.type_descriptor(self.load_dialect_impl(dialect))\n"), "C09-R3")
+R.mutant("gen-dialect-impl-installs-generic-impl", TA, sub(_GEN, "        typedesc = self.load_dialect_impl(dialect)\n"), "C09-R3")
+R.mutant("pg-array-item-processor-from-generic-type", "dialects/postgresql/array.py",
+         sub("        item_proc = self.item_type.dialect_impl(dialect).bind_processor(\n", "        item_proc = self.item_type.bind_processor(\n"), "C09-R3")
+R.mutant("out-param-processor-from-generic-type", "engine/default.py",
+         sub("            impl_type = type_.dialect_impl(self.dialect)\n", "            impl_type = type_\n"), "C09-R3")
+R.mutant("dialect-info-skips-gen-dialect-impl", TA,
+         sub("            impl = self._gen_dialect_impl(dialect)\n            if impl is self:", "            impl = dialect.type_descriptor(self)\n            if impl is self:"), "C09-R3")
+R.mutant("benign-gen-dialect-impl-via-local", TA,
+         sub(_GEN, "        loaded = self.load_dialect_impl(dialect)\n        typedesc = loaded.dialect_impl(dialect)\n"), None)
+R.mutant("benign-array-item-impl-local", "sql/sqltypes.py",
+         sub("        item_proc = self.item_type.dialect_impl(dialect).literal_processor(\n            dialect\n        )",
+             "        item_impl = self.item_type.dialect_impl(dialect)\n        item_proc = item_impl.literal_processor(dialect)"), None)
+_BIN = "            if value is not None:\n                return DBAPIBinary(value)\n            else:\n                return None\n"
+# seeded C09/2: None guard widened to a falsiness guard
+R.mutant("binary-bind-empty-to-null", "sql/sqltypes.py", sub(_BIN, "            return DBAPIBinary(value) if value else None\n"), "C09-R4")
+R.mutant("binary-bind-not-value-returns-none", "sql/sqltypes.py",
+         sub(_BIN, "            if not value:\n                return None\n            return DBAPIBinary(value)\n"), "C09-R4")
+R.mutant("interval-bind-zero-to-null", "sql/sqltypes.py",
+         sub("                if value is not None:\n                    dt_value = epoch + value\n                else:\n                    dt_value = None\n                return fixed_impl_processor(dt_value)",
+             "                if value:\n                    dt_value = epoch + value\n                else:\n                    dt_value = None\n                return fixed_impl_processor(dt_value)"), "C09-R4")
+R.mutant("pickle-result-empty-to-null", "sql/sqltypes.py",
+         sub("                value = fixed_impl_processor(value)\n                if value is None:\n                    return None\n                return loads(value)",
+             "                value = fixed_impl_processor(value)\n                if not value:\n                    return None\n                return loads(value)"), "C09-R4")
+R.mutant("pickle-result-or-none", "sql/sqltypes.py",
+         sub("            def process(value):\n                if value is None:\n                    return None\n                return loads(value)\n",
+             "            def process(value):\n                return (value or None) and loads(value)\n"), "C09-R4")
+R.mutant("benign-binary-bind-ternary-is-not-none", "sql/sqltypes.py",
+         sub(_BIN, "            return DBAPIBinary(value) if value is not None else None\n"), None)
+R.mutant("benign-binary-result-falsy-passed-through", "sql/sqltypes.py",
+         sub("            if value is not None:\n                value = bytes(value)\n            return value", "            if value:\n                value = bytes(value)\n            return value"), None)
+
